@@ -60,7 +60,7 @@ def run(ctx):
         np = None
     have_np = bool(np)
     ctx.rule = ('case = (key, bound, input s, n); keys of length 0/1/16/32, bounds: boundary list x all keys x all inputs x '
-                'all n, plus the sweep 1..%d with rotating key/input/n; non-trivial when bound >= 2 and n != 0 '
+                'all n (n = 50 and shapes on a sub-grid), plus the sweep 1..%d with rotating key/input/n; non-trivial when bound >= 2 and n != 0 '
                 '(the digest is actually used)' % ctx.n(1030, 5000))
     ctx.explanation = ('range/length/scalar-consistency/prefix theorems in Coq for all inputs; executable model evaluated on '
                        'the real digest bytes and compared exactly with thresha.PRF')
@@ -70,13 +70,17 @@ def run(ctx):
     ns = [None, 0, 1, 2, 7, 50]
     shapes = [(2, 3), (0,), (1, 1, 4), (), (3, 0, 2)] if have_np else []
     cases = []
+    # (literal size matters: ~0.2 ms of coqc per digest byte, so n = 50 and shapes get a sub-grid)
     for bound in special:
-        for key in keys:
-            for s in inputs:
-                for n in ns:
+        for ki, key in enumerate(keys):
+            for si, s in enumerate(inputs[:ctx.n(3, 5)] if ki else inputs):
+                for n in ns[:-1]:
                     cases.append((key, bound, s, n))
-                for sh in shapes:
-                    cases.append((key, bound, s, sh))
+                if si == 0 and ki in (0, 2) or ctx.tier == 'thorough':
+                    cases.append((key, bound, s, 50))
+                if si == 2:
+                    for sh in shapes:
+                        cases.append((key, bound, s, sh))
     top = ctx.n(1030, 5000)
     for bound in range(1, top + 1):
         key = keys[bound % len(keys)]
@@ -90,7 +94,7 @@ def run(ctx):
         bits = rng.randrange(1, 200)
         bound = rng.choice([1 << bits, (1 << bits) + 1, (1 << bits) - 1, rng.randrange(1, 1 << bits) + 1])
         bound = max(bound, 1)
-        cases.append((rng.choice(keys), bound, rng.choice(inputs), rng.choice(ns + shapes)))
+        cases.append((rng.choice(keys), bound, rng.choice(inputs), rng.choice(ns[:-1] * 3 + shapes * 2 + [50])))
 
     def viol(sig, key, bound, s, n, **kw):
         d = {'key_hex': key.hex(), 'bound': bound, 's_hex': s.hex(), 'n': n}
@@ -173,7 +177,7 @@ def run(ctx):
     ctx.log('%d implementation cases (numpy shapes: %s); %d prefix-law checks; evaluating %d model expressions in Coq'
             % (len(meta), have_np, npref, len(exprs)))
     if ok:
-        res = ctx.coq_eval(['MPyC.PRFModel'], exprs, chunk=120)
+        res = ctx.coq_eval(['MPyC.PRFModel'], exprs, chunk=100)
         mism = 0
         for r, (desc, l_impl, flat) in zip(res, meta):
             if isinstance(r, tuple) and r and r[0] == 'ERROR':
